@@ -62,6 +62,11 @@ FIXED = [
  ("C02", "edge attributes survive the removal of invalid edges", "dropping an invalid edge lost the values of dense edge attributes (ValueError for vector ones) and the custom default of sparse ones"),
  ("C02", "cell/face connectivity works when cells are numpy rows", "face_to_cells / cell_to_face / in_cell_face_index raised ValueError on volume meshes whose cells are numpy rows (from_arrays)"),
  ("C16", "singularity cutter reaches every face", "SingularityCutter with a feature detector and >= 1 singularity: faces enclosed by forbidden feature edges were never reached by the dual search and the cut mesh fell apart into several components"),
+ ("C13", "split_edge replaces the split edge", "split_edge turned the split edge into a 4-tuple (tuple concatenation); a second split raised ValueError"),
+ ("C13", "surface refinements take edge midpoints from the faces", "loop_subdivision / subdivide_triangles_3quads / subdivide_triangles_6 raised KeyError on meshes with quads, after a 3quads refinement and for subdivide_triangles_6(2) (midpoint table built from the stale edge list)"),
+ ("C13", "subdivision blocks leave the mesh that was passed in equal to the result", "the mesh object passed to SurfaceSubdivision / VolumeSubdivision / split_double_boundary_edges_triangles was left half-updated (faces without corners) or with connectivity and border caches describing the old mesh"),
+ ("C13", "split_tet_from_face_center reads cell adjacency from the current cells", "second volume operation of an editing block used the face->cells table computed on entry: wrong cell split (volume changed) or KeyError"),
+ ("C13", "quads are not split along a diagonal that is already an edge", "triangulating a quad whose B-D diagonal is already an edge of the mesh produced an edge with 3-4 incident faces (non-manifold result)"),
  ("C14", "circumcenter lies in the plane", "geometry.circumcenter dropped the normal offset of the triangle's plane (dual_mesh circumcenter mode put vertices in the wrong plane)"),
 ]
 
